@@ -51,16 +51,18 @@ static std::string finish(const Toks &a, const Toks &b)
 }
 
 // ------------------------------------------------------------------------------------------ string_view
-struct SvIn { std::string a, b; size_t pos, n, pos2, n2; char ch; };
+struct SvIn { std::string a, b; size_t pos, n, pos2, n2; char ch; bool alias = false; std::string buf; size_t o1 = 0, o2 = 0; };
 
 template <class SV>
 static Toks sv_lane(const SvIn &in, bool is_nostd)
 {
   Toks o;
-  verif::ExactBuf ba(in.a), bb(in.b), ba2(in.a);
-  SV a = in.a.empty() ? SV() : SV(ba.p, ba.n);
+  // alias mode: both operands are slices of ONE exact-size heap block (same start address with different lengths,
+  // identical, nested and overlapping views); otherwise every operand lives in its own block
+  verif::ExactBuf ba(in.alias ? in.buf : in.a), bb(in.alias ? std::string() : in.b), ba2(in.a);
+  SV a = in.alias ? SV(ba.p + in.o1, in.a.size()) : (in.a.empty() ? SV() : SV(ba.p, ba.n));
   SV a2(ba2.p, ba2.n);
-  SV b(bb.p, bb.n);
+  SV b = in.alias ? SV(ba.p + in.o2, in.b.size()) : SV(bb.p, bb.n);
   std::string bs = in.b;                    // NUL-terminated copies for the const char* overloads
   std::string as = in.a;
   const char *bc = bs.c_str();
@@ -70,7 +72,9 @@ static Toks sv_lane(const SvIn &in, bool is_nostd)
   lab(o, "str", verif::hex(std::string(a)));
   { std::ostringstream os; os << a; lab(o, "os", verif::hex(os.str())); }
   lab(o, "at", in.pos < a.size() ? num((unsigned char)a[in.pos]) : "-");
-  lab(o, "cmp", num(sign(a.compare(b))));
+  // a view compared with itself / with a copy of itself (same pointer, same length) is equal
+  bool self_ok = a.compare(a) == 0 && a == a && !(a != a) && !(a < a) && !(a > a) && a.compare(SV(a)) == 0;
+  lab(o, "cmp", self_ok ? num(sign(a.compare(b))) : "MISMATCH");
   lab(o, "eq", num(a == b));
   lab(o, "ne", num(a != b));
   {
@@ -92,7 +96,7 @@ static Toks sv_lane(const SvIn &in, bool is_nostd)
     int x = (a == bc), y = (bc == a), z = !(a != bc), w = !(bc != a);
     lab(o, "eqc", (x == y && y == z && z == w) ? num(x) : "2");
   }
-  try { lab(o, "cmpcn", num(sign(a.compare(in.pos, in.n, bb.p, std::min(in.n2, in.b.size()))))); }
+  try { lab(o, "cmpcn", num(sign(a.compare(in.pos, in.n, b.data(), std::min(in.n2, in.b.size()))))); }
   catch (const std::out_of_range &) { lab(o, "cmpcn", "OOR"); }
   try { lab(o, "cmpc3", num(sign(a.compare(in.pos, in.n, bc)))); }
   catch (const std::out_of_range &) { lab(o, "cmpc3", "OOR"); }
@@ -106,12 +110,25 @@ static Toks sv_lane(const SvIn &in, bool is_nostd)
 
 static std::string run_sv(const std::vector<Tok> &t)
 {
-  if (t.size() != 8 || t[1].kind == Tok::INT || t[2].kind == Tok::INT) return "BADCASE";
   SvIn in;
-  in.a = t[1].kind == Tok::BYTES ? t[1].s : "";
-  in.b = t[2].kind == Tok::BYTES ? t[2].s : "";
-  in.pos = t[3].as_ull(); in.n = t[4].as_ull(); in.pos2 = t[5].as_ull(); in.n2 = t[6].as_ull();
-  in.ch = char(t[7].as_ull());
+  if (t[0].is_tag("SVA"))
+  {
+    if (t.size() != 11 || t[1].kind != Tok::BYTES) return "BADCASE";
+    in.alias = true; in.buf = t[1].s;
+    in.o1 = t[2].as_ull(); size_t l1 = t[3].as_ull(); in.o2 = t[4].as_ull(); size_t l2 = t[5].as_ull();
+    if (in.o1 + l1 > in.buf.size() || in.o2 + l2 > in.buf.size()) return "BADCASE";
+    in.a = in.buf.substr(in.o1, l1); in.b = in.buf.substr(in.o2, l2);
+    in.pos = t[6].as_ull(); in.n = t[7].as_ull(); in.pos2 = t[8].as_ull(); in.n2 = t[9].as_ull();
+    in.ch = char(t[10].as_ull());
+  }
+  else
+  {
+    if (t.size() != 8 || t[1].kind == Tok::INT || t[2].kind == Tok::INT) return "BADCASE";
+    in.a = t[1].kind == Tok::BYTES ? t[1].s : "";
+    in.b = t[2].kind == Tok::BYTES ? t[2].s : "";
+    in.pos = t[3].as_ull(); in.n = t[4].as_ull(); in.pos2 = t[5].as_ull(); in.n2 = t[6].as_ull();
+    in.ch = char(t[7].as_ull());
+  }
   return finish(sv_lane<nostd::string_view>(in, true), sv_lane<std::string_view>(in, false));
 }
 
@@ -199,8 +216,18 @@ static Toks sp_nostd(const SpIn &in)
     lab(o, "carr", same ? verif::hex(std::string(d.begin(), d.end())) : "MISMATCH");
   }
   lab(o, "fix", in.ext == 4 ? fixed_elems<4>(base + in.off, in.cnt) : fixed_elems<0>(base + in.off, in.cnt));
+  // spans over the same storage alias: a write through one is seen through a copy, a (first,last) span, a const view
+  // and an overlapping span that starts one element later
+  nostd::span<uint8_t> alias_cp(s);
+  nostd::span<uint8_t> alias_fl(base + in.off, base + in.off + in.cnt);
+  nostd::span<const uint8_t> alias_c(s);
+  nostd::span<uint8_t> alias_tail(base + in.off + (in.cnt ? 1 : 0), in.cnt ? in.cnt - 1 : 0);
   if (in.idx < s.size()) s[in.idx] = in.val;
-  lab(o, "wr", verif::hex(base, n));
+  bool seen = true;
+  for (size_t i = 0; i < s.size(); i++)
+    seen = seen && alias_cp[i] == base[in.off + i] && alias_fl[i] == base[in.off + i] && alias_c[i] == base[in.off + i] &&
+           (i == 0 || alias_tail[i - 1] == base[in.off + i]);
+  lab(o, "wr", seen ? verif::hex(base, n) : "MISMATCH");
   return o;
 }
 
@@ -521,6 +548,16 @@ struct VarLane
       return true;
     }
     if (n == "vempthrow") { try { vd.template emplace<5>(1); } catch (int) {} return true; }
+    if (n == "vself")
+    {
+      // assignment from a reference to the variant's own held value (the source aliases the destination)
+      if (auto *p1 = F::template get_if<1>(&vd)) vd = *p1;
+      else if (auto *p2 = F::template get_if<2>(&vd)) vd = *p2;
+      else if (auto *p3 = F::template get_if<3>(&vd)) { const std::string &r = *p3; vd = r; }
+      else if (auto *p4 = F::template get_if<4>(&vd)) { const Counted &r = *p4; vd = r; }
+      else if (auto *p0 = F::template get_if<0>(&vd)) vd = *p0;
+      return true;
+    }
     if (n == "vidx")
     {
       res.push_back(vd.valueless_by_exception() ? "-1" : num((long long)vd.index()));
@@ -675,7 +712,7 @@ static Toks fr_lane(const std::vector<std::vector<Tok>> &ops, bool use_nostd)
 static void run_one(const std::vector<Tok> &t, verif::Out &o)
 {
   if (t.empty()) { o.tag("BADCASE"); return; }
-  if (t[0].is_tag("SV")) { o.add(run_sv(t)); return; }
+  if (t[0].is_tag("SV") || t[0].is_tag("SVA")) { o.add(run_sv(t)); return; }
   if (t[0].is_tag("SP")) { o.add(run_sp(t)); return; }
   if (t[0].is_tag("CONV") && t.size() == 2)
   {
